@@ -46,16 +46,21 @@ def rbytes(r, n):
 
 
 class Refs:
+    """explicit reference numbers that can never meet one the library hands out: Hnewref returns maxref + 1 and maxref
+    dominates every explicit ref used so far, so explicit refs are taken from a strictly DESCENDING sequence (a later
+    explicit ref is below every ref in the file, explicit or chosen by Hnewref).  A session whose 'new' element met
+    an existing tag/ref would modify an old object, which is outside the property"""
     def __init__(self):
-        self.used = set()
+        self.next = None
 
     def new(self, r, tag):
-        for _ in range(200):
-            ref = r.randrange(1, 60)
-            if (tag, ref) not in self.used:
-                self.used.add((tag, ref))
-                return ref
-        raise RuntimeError("refs exhausted")
+        if self.next is None:
+            self.next = r.choice([300, 3000, 30000])
+        ref = self.next
+        self.next -= r.choice([1, 1, 1, 2, 5])
+        if self.next < 2:
+            raise RuntimeError("refs exhausted")
+        return ref
 
 
 def h_op(r, refs, big=False):
@@ -175,12 +180,12 @@ def gen_session(r, name, kind=None):
         olds = [(o.split()[1], o.split()[2]) for o in base if o.split()[0] in ("put", "sw") and
                 (o.split()[0] == "put" or o.split()[3] != "0")]
         if not olds:
-            base.append("put 800 77 aabbcc")
-            olds = [("800", "77")]
+            base.append("put 800 %d aabbcc" % refs.new(r, 800))
+            olds = [tuple(base[-1].split()[1:3])]
         last_h = [o for o in base if o.split()[0] in ("put", "sw", "vs", "vg", "hl", "app")][-1].split()
         if last_h[0] != "put":
-            base.append("put 801 78 0102030405060708")
-            olds.append(("801", "78"))
+            base.append("put 801 %d 0102030405060708" % refs.new(r, 801))
+            olds.append(tuple(base[-1].split()[1:3]))
         victims = [olds[-1]] if r.random() < 0.8 else []
         victims += [o for o in olds[:-1] if r.random() < 0.3]
         ops = ["del %s %s" % v for v in victims] + [h_op(r, refs) for _ in range(r.choice([1, 2, 4]))]
